@@ -18,7 +18,8 @@ CLASSES = ['StorySend', 'StoryAppend', 'StoryDelete', 'StoryInsert', 'StoryMove'
            'EAItemInsert', 'EAStorySwap', 'EAItemSwap', 'EAStoryMove', 'EAItemMove']
 
 DUR = ['0', '1', '2.5', '3', '10', '12.25', '0.125', '7.75', '60', '31', ' 3 ', '+2', '1e1', '25e-1', '0.5E1', '1.50', '007', '.5', '5.', '\t4\n', '0.1', '0.2', '0.3337', '20.0004', '0.04', '7.7', '33.333333']
-TEXTS = ['cafe\u0301 (decomposed)', '\u2126\u212b',  'plain text', ' padded ', '(note)', '<tech>', '(half', 'half>', 'Ünïcödé ☃ 𝄞', 'a & b < c > d "q" \'s\'',
+CR = '@@CR@@'        # becomes the character reference &#13; where the caller serialises the message (hist_run)
+TEXTS = ['line one' + CR + 'line two', 'cafe\u0301 (decomposed)', '\u2126\u212b',  'plain text', ' padded ', '(note)', '<tech>', '(half', 'half>', 'Ünïcödé ☃ 𝄞', 'a & b < c > d "q" \'s\'',
          '', None, '\t', 'line1\nline2', '  (  spaced note )  ', 'x' * 40]
 
 
